@@ -1559,6 +1559,95 @@ def rule_r13(chk, prog):
 
 
 # -------------------------------------------------------------------- R14
+def rule_r15(chk, prog):
+    chk.rule('C04.R15', 'a library call that answers "nothing found" with '
+             'None (re.match / search / fullmatch, also on compiled '
+             'patterns; shutil.which) is not dereferenced in main-process '
+             'code before a None test')
+    from ..cfg import facts_at
+    OPT_FUNCS = ('re.match', 're.search', 're.fullmatch', 'shutil.which')
+    OPT_METHODS = ('match', 'search', 'fullmatch')
+
+    def compiled(m, f, e):
+        """is ``e`` a compiled pattern (a name bound to re.compile(..))"""
+        if isinstance(e, ast.Call) and call_name(e) == 're.compile':
+            return True
+        if isinstance(e, ast.Name):
+            ds = []
+            if f is not None:
+                ds = [st.value for st in ast.walk(f)
+                      if isinstance(st, ast.Assign) and any(
+                          isinstance(t, ast.Name) and t.id == e.id
+                          for t in st.targets)]
+            if not ds:
+                ds = list(m.globals.get(e.id, []))
+            return bool(ds) and all(isinstance(d, ast.Call) and call_name(
+                d) == 're.compile' for d in ds)
+        return False
+
+    n = 0
+    for modname in MAIN_PROCESS_MODULES + ('nodeio', 'nodes', 'version'):
+        try:
+            m = prog.mod(modname)
+        except AnalysisError:
+            continue
+        for c in ast.walk(m.tree):
+            if not isinstance(c, ast.Call):
+                continue
+            nm = call_name(c) or ''
+            f = _fn(c)
+            opt = nm in OPT_FUNCS or (
+                isinstance(c.func, ast.Attribute)
+                and c.func.attr in OPT_METHODS
+                and compiled(m, f, c.func.value))
+            if not opt:
+                continue
+            n += 1
+            where = f'{modname}.{f._qualname if f is not None else ""}'
+            par = getattr(c, '_parent', None)
+            # dereferenced on the spot
+            if isinstance(par, (ast.Attribute, ast.Subscript)) and \
+                    par.value is c:
+                chk.check('C04.R15', where, c, False,
+                          f'"{unparse(par)[:60]}" uses the result of '
+                          f'{unparse(c.func)} directly: when nothing matches '
+                          'it is None and the main process dies with '
+                          'AttributeError / TypeError and a traceback',
+                          loc=m.loc(c), nontrivial=True)
+                continue
+            # bound to a name: every dereference of that name is guarded
+            if isinstance(par, ast.Assign) and len(
+                    par.targets) == 1 and isinstance(
+                        par.targets[0], ast.Name) and f is not None:
+                v = par.targets[0].id
+                rebinds = [st for st in ast.walk(f) if isinstance(
+                    st, ast.Assign) and st is not par and any(
+                        isinstance(t, ast.Name) and t.id == v
+                        for t in st.targets)]
+                bad = None
+                for u in ast.walk(f):
+                    if isinstance(u, (ast.Attribute, ast.Subscript)) and \
+                            isinstance(u.value, ast.Name) and \
+                            u.value.id == v and not rebinds:
+                        fs = facts_at(f, u)
+                        if not ((v, True) in fs
+                                or (f'{v} is None', False) in fs
+                                or (f'{v} is not None', True) in fs
+                                or (f'not {v}', False) in fs):
+                            bad = u
+                            break
+                chk.check('C04.R15', where, c, bad is None,
+                          f'"{unparse(bad)[:60] if bad is not None else ""}"'
+                          f' reads the result of {unparse(c.func)} without '
+                          'a None test: when nothing matches the main '
+                          'process dies with AttributeError / TypeError and '
+                          'a traceback', loc=m.loc(c), nontrivial=True)
+                continue
+            chk.check('C04.R15', where, c, True, '', loc=m.loc(c))
+    chk.floor('C04.R15', 'optional-result calls in main-process modules', n,
+              2)
+
+
 def rule_r14(chk, prog):
     chk.rule('C04.R14', 'the renderers run in the main process on trees the '
              'mutators built: the text of a leaf is indexed only after it '
@@ -1649,6 +1738,7 @@ def run(tier):
     chk.guard(rule_r11, chk, prog, cg)
     chk.guard(rule_r13, chk, prog)
     chk.guard(rule_r14, chk, prog)
+    chk.guard(rule_r15, chk, prog)
     # an interrupt must reach main()'s handler (status 1): shared with C06.R3
     from . import c06
     sub = Check('C06', 'other', tier, [], [])
